@@ -50,8 +50,9 @@ static void setup_world(const Plan &P) {
 }
 
 // which blocks have no level-0 data in the file (zero entries of the level-1 index, read by the independent decoder)
-static void mark_omitted(Model &m, const std::vector<uint8_t> &bytes) {
+static int mark_omitted(Model &m, const std::vector<uint8_t> &bytes) {
     specdec::Decoded d; specdec::decode(bytes, d, false);
+    int max_level = specdec::max_fsr_level(d);
     for (auto &kv : d.signals) {
         auto it = m.signals.find(kv.first);
         if (it == m.signals.end() || it->second.sigtype != 0 || !kv.second.spd) continue;
@@ -66,6 +67,7 @@ static void mark_omitted(Model &m, const std::vector<uint8_t> &bytes) {
             }
         }
     }
+    return max_level;
 }
 
 // write the program (sync or threaded), build the model from accepted ops, check acceptance against the conforming expectation
@@ -90,7 +92,7 @@ static bool write_phase(const Plan &P, const std::string &prop, AResult &A, RunO
     A.writer_ok = true;
     SFile *f = simfs::get(PATH_A);
     if (f) A.closed_bytes = f->bytes;
-    mark_omitted(A.m, A.closed_bytes);
+    out.ctr["programs_max_level_" + std::to_string(mark_omitted(A.m, A.closed_bytes))]++;   // reach: summary levels on disk in the finished file
     return true;
 }
 
